@@ -172,6 +172,33 @@ func runResolveCase(c *expCase) []*resObs {
 		kind := []string{"s", "p", "r", "i"}[(c.Rot+d)%4]
 		aims = append(aims, aim{0, kind, spellRef(cc.urls[0], cc.urls[d], []string{sectionOf(kind), "No/Such~Name"}, c.Rot, c.Spell == "varied")})
 	}
+	// pointers that run past an existing node into a member it does not have
+	for i, a := range c.Nodes {
+		if a.T == "ref" {
+			continue
+		}
+		base := cc.paths[i+1]
+		var more [][]string
+		var kind string
+		switch a.Kind {
+		case "s":
+			more, kind = [][]string{{"properties", "No/Such"}, {"allOf", "7"}, {"items"}, {"definitions", "missing"}}, "s"
+		case "p", "r":
+			more, kind = [][]string{{"schema", "properties", "nope"}}, "s"
+		case "i":
+			if (c.Rot+i)%2 == 0 {
+				more, kind = [][]string{{"get", "responses", "404"}, {"put", "responses", "200"}}, "r"
+			} else {
+				more, kind = [][]string{{"parameters", "9"}, {"get", "parameters", "3"}}, "p"
+			}
+		}
+		for k, m := range more {
+			if (c.Rot+i+k)%2 == 0 || len(more) == 1 {
+				toks := append(append([]string{}, base...), m...)
+				aims = append(aims, aim{0, kind, spellRef(cc.urls[0], cc.urls[a.Doc], toks, c.Rot+i, c.Spell == "varied")})
+			}
+		}
+	}
 	aims = append(aims, aim{0, "s", "nowhere/missing.json#/definitions/X"})
 	// a pointer that runs through a scalar
 	aims = append(aims, aim{0, "s", "#/info/title/deeper"})
